@@ -23,18 +23,24 @@ from harness import framework, net_common, net_driver as nd
 
 def run(ctx):
     ctx.mc("net", "IOStreamContract", "MC_IOStreamRead.cfg",
-           overrides=ctx.pick({}, {"MaxStream": 5}),
+           overrides=ctx.pick({"MaxStream": 3}, {"MaxStream": 5}),
            required_actions=["Read", "Deliver", "Cond", "CloseLocal"], timeout=ctx.pick(900, 3000))
     L = 4
     variants = ctx.pick(nd.VARIANTS[:2], nd.VARIANTS)
     net_common.s2c_stream(ctx, "GenG_IOStreamRead.cfg",
                           ctx.pick({"L": L}, {"L": L, "MaxStream": 5, "MaxChunk": 3, "ReadIds": "{1, 3, 4, 7, 10, 11, 12, 13, 17, 19, 23, 25}", "Alphabet": "{97, 10, 13}"}),
-                          variants,
+                          variants, spread=ctx.quick,
                           nontrivial=lambda e, p: len(p) >= 2 and any(s["act"] == "read" for s in p))
     # longer streams / bigger deliveries with the max_bytes reads followed by other kinds (no close ops)
     net_common.s2c_stream(ctx, "GenG_IOStreamStale.cfg", {"L": ctx.pick(4, 5)}, variants[:1], label="s2c")
+    # flow control: max_buffer_size 4 (read_chunk_size 2), every read asks for <= 2 bytes, bursts of up to
+    # 6 bytes arrive while the stream is idle (close callback on / off): whatever is not asked for stays
+    # in the transport - the contract (no overflow clause needed: nothing lost, stream stays open) is the
+    # same specification, only the real object is configured small
+    net_common.s2c_stream(ctx, "GenG_IOStreamIdle.cfg", ctx.pick({"L": 4}, {"L": 5, "Ccs": "{0, 1}"}),
+                          [dict(rcs=2, mbs=4), dict(rcs=1, mbs=5)], label="s2c", spread=ctx.quick)
     ctx.cov["exhaustive"] = True
-    net_common.c2s_stream(ctx, "read", n=ctx.pick(150, 3000))
+    net_common.c2s_stream(ctx, "read", n=ctx.pick(100, 3000))
     ctx.cov["rule"] = ("paths: every sequence of read(kind)/deliver(chunk<=2 over {a,LF})/eof/close of length <= %d "
                        "through the TLC state graph, each replayed under %d transport variants; plus seeded random "
                        "recorded read programs validated by TLC; distinct = distinct (config, operation sequence, "
